@@ -28,7 +28,7 @@ REQUIRED_REACH = ["spectrum.py:WaveSpectrum.__add__", "spectrum.py:WaveSpectrum.
                   "spectrum.py:DatasetWrapper.__deepcopy__", "operations.py:concatenate_spectra",
                   "spectrum.py:load_spectrum_from_netcdf", "spectrum.py:WaveSpectrum.__getitem__",
                   "spectrum.py:FrequencySpectrum.interpolate_frequency", "spectrum.py:WaveSpectrum.bandpass"]
-REQUIRED_COUNTERS = {"C15.ops_executed": 100, "C15.ops_on_spectra_with_nan": 10, "C15.op:interpolate_frequency:spline": 1}
+REQUIRED_COUNTERS = {"C15.inplace_ops_on_derived_spectra": 2, "C15.ops_executed": 100, "C15.ops_on_spectra_with_nan": 10, "C15.op:interpolate_frequency:spline": 1}
 TIMEOUT = {"quick": 900, "thorough": 3600}
 N = {"quick": (8, 60), "thorough": (16, 400)}
 
@@ -80,6 +80,10 @@ def ops_for(s, rng, pool, work):
     ops.append(("multiply", lambda: s.multiply(arr), [s]))
     af = rng.uniform(0.5, 2, len(f))
     ops.append(("multiply-dims", lambda: s.multiply(af, ["frequency"]), [s]))
+    # documented in-place operations may change `self` - and nothing else: a spectrum obtained by selection /
+    # indexing / flattening from another one must not drag its parent along
+    ops.append(("multiply-inplace", lambda: s.multiply(arr, inplace=True), [s]))
+    ops.append(("fillna-inplace", lambda: s.fillna(0.0), [s]))
     lo, hi = sorted(rng.uniform(f[0], f[-1], 2)) if len(f) > 1 else (0.0, 1.0)
     ops.append(("bandpass", lambda: s.bandpass(float(lo), float(hi)), [s]))
     if "time" in lead:
@@ -146,6 +150,7 @@ def history(ctx, c, work):
     pool = [gs.build(g) for g in c["members"]]
     has_nan = [bool(np.isnan(np.asarray(g["E"], float)).any()) for g in c["members"]]
     nanflag = {id(p): h for p, h in zip(pool, has_nan)}
+    derived = {}  # id -> True for members that were produced from another pool member
     steps = int(c["steps"])
     for step in range(steps):
         s = pool[int(rng.integers(0, len(pool)))]
@@ -173,12 +178,18 @@ def history(ctx, c, work):
                  sample={"op": name, "class": type(s).__name__, "dims": s.dims, "step": step})
         wit = lambda: {"hist": c, "step": step, "op": name}  # noqa
         for k, p in enumerate(pool):
+            if name.endswith("-inplace") and p is s:
+                continue  # self may change (documented); every other pool member must not
             d = diff_snapshot(before[k], snapshot(p))
             if not ctx.check("C15.operands-unchanged", d is None, wit,
                              {"op": name, "pool_member": k, "is_operand": any(p is o for o in operands), "diff": d,
                               "raised": err}, key=f"C15:mutated:{name}"):
                 # restore the pool so later steps are judged on their own
                 pool[k] = gs.build(c["members"][k]) if k < len(c["members"]) else p
+        if name.endswith("-inplace"):
+            ctx.count("C15.inplace_ops_on_derived_spectra" if derived.get(id(s)) else "C15.inplace_ops_on_root_spectra")
+            # the mutated member no longer matches its generator case: rebuild it for the steps that follow
+            continue
         if result is not None and hasattr(result, "dataset"):
             fresh = all(result is not o and result.dataset is not o.dataset for o in operands)
             ctx.check("C15.result-is-new-object", fresh, wit, {"op": name}, key=f"C15:not-new:{name}")
@@ -199,6 +210,7 @@ def history(ctx, c, work):
                 usable = False
             if len(pool) < 8 and usable:
                 nanflag[id(result)] = bool(np.isnan(result.variance_density.values).any())
+                derived[id(result)] = True
                 pool.append(result)
 
 
@@ -397,7 +409,7 @@ def gen_concat(rng):
     return {"mode": mode, "members": members}
 
 
-FORCED = ["interpolate_frequency:spline", "interpolate_frequency:nearest", "flatten", "deepcopy", "save-load", "copy",
+FORCED = ["multiply-inplace", "interpolate_frequency:spline", "interpolate_frequency:nearest", "flatten", "deepcopy", "save-load", "copy",
           "getitem", "multiply", "add", "bandpass", "as_frequency_spectrum", "as_frequency_direction_spectrum"]
 
 
